@@ -141,7 +141,7 @@ def list_jobs(tier):
 
 
 def options(tier):
-    return pipeline.Options(timeout_ms=4000 if tier == "quick" else 30000, max_queries=32 if tier == "quick" else 128, unroll=4)
+    return pipeline.Options(timeout_ms=2500 if tier == "quick" else 30000, max_queries=32 if tier == "quick" else 128, unroll=4, max_unknown=1 if tier == "quick" else 2, budget_s=15.0 if tier == "quick" else 60.0)
 
 
 class _Injected(RuntimeError):
